@@ -219,34 +219,7 @@ func (c *Ctx) collectOps(fn *ssa.Function, after ssa.Instruction, inherited map[
 
 func runC12(c *Ctx) {
 	c.R.Rule("shared-writer", "for every transport whose ResponseWriter is reachable from a goroutine it starts: every write/flush through the writer in that goroutine and in the spawner after the spawn (incl. same-package helpers, with locks inherited from call sites) holds one common mutex class", 2)
-	type spawn struct {
-		do     *ssa.Function
-		goSite an.GoSite
-		at     ssa.Instruction // instruction in `do` after which the goroutine may exist
-	}
-	var spawns []spawn
-	for _, name := range []string{"SSE.Do", "MultipartMixed.Do", "POST.Do", "GET.Do", "GRAPHQL.Do", "UrlEncodedForm.Do", "MultipartForm.Do"} {
-		do := c.W.Func(pkgTransport, name)
-		if do == nil {
-			continue
-		}
-		// direct go statements
-		for _, gs := range an.GoSites(do) {
-			if gs.Callee != nil && goroutineTouchesWriter(gs) {
-				spawns = append(spawns, spawn{do, gs, gs.Go})
-			}
-		}
-		// go statements inside same-package helpers that receive the writer
-		for _, call := range an.CallsIn(do, func(ci ssa.CallInstruction, info an.CalleeInfo) bool {
-			return info.Static != nil && info.Static.Pkg != nil && info.Static.Pkg.Pkg.Path() == pkgTransport
-		}) {
-			for _, gs := range an.GoSites(call.Common().StaticCallee()) {
-				if gs.Callee != nil && goroutineTouchesWriter(gs) {
-					spawns = append(spawns, spawn{do, gs, call})
-				}
-			}
-		}
-	}
+	spawns := c12WriterSpawns(c)
 	if len(spawns) < 2 {
 		c.R.Fail("unresolved anchor: expected the SSE keep-alive and multipart/mixed ticker goroutines, found %d writer-sharing goroutines", len(spawns))
 	}
@@ -315,6 +288,43 @@ func runC12(c *Ctx) {
 	hasNextAbsentIsFalse(c)
 	streamLoopExits(c)
 	c12FormatConstant(c)
+	c12WriterGoroutineBounded(c)
+}
+
+
+// writerSpawn: a goroutine started (directly or in a same-package helper) by a transport's Do that can reach the ResponseWriter.
+type writerSpawn struct {
+	do     *ssa.Function
+	goSite an.GoSite
+	at     ssa.Instruction // instruction in `do` after which the goroutine may exist
+}
+
+func c12WriterSpawns(c *Ctx) []writerSpawn {
+	type spawn = writerSpawn
+	var spawns []spawn
+	for _, name := range []string{"SSE.Do", "MultipartMixed.Do", "POST.Do", "GET.Do", "GRAPHQL.Do", "UrlEncodedForm.Do", "MultipartForm.Do"} {
+		do := c.W.Func(pkgTransport, name)
+		if do == nil {
+			continue
+		}
+		// direct go statements
+		for _, gs := range an.GoSites(do) {
+			if gs.Callee != nil && goroutineTouchesWriter(gs) {
+				spawns = append(spawns, spawn{do, gs, gs.Go})
+			}
+		}
+		// go statements inside same-package helpers that receive the writer
+		for _, call := range an.CallsIn(do, func(ci ssa.CallInstruction, info an.CalleeInfo) bool {
+			return info.Static != nil && info.Static.Pkg != nil && info.Static.Pkg.Pkg.Path() == pkgTransport
+		}) {
+			for _, gs := range an.GoSites(call.Common().StaticCallee()) {
+				if gs.Callee != nil && goroutineTouchesWriter(gs) {
+					spawns = append(spawns, spawn{do, gs, call})
+				}
+			}
+		}
+	}
+	return spawns
 }
 
 // reviewedWriterOp: table of accepted operations, one line of reason each.
